@@ -289,6 +289,9 @@ func realLoad(raw json.RawMessage) any {
 	}
 	home := filepath.Join(root, "home")
 	os.MkdirAll(home, 0o755)
+	// the process runs somewhere else, in a directory whose entries have the same names as the project's (all of them
+	// symbolic links to a decoy): no attribute may be looked up from there
+	defer c12DecoyCwd(filepath.Join(root, a.Wd))()
 	if old, had := os.LookupEnv("HOME"); had {
 		defer os.Setenv("HOME", old)
 	} else {
